@@ -12,6 +12,12 @@
 //!  (3) tie: the Lean model `Producer.run` (driver `gm_c17`) on the abstract description of each
 //!      layout answers the same item list including archive names, and its closed form
 //!      (`c17.spec`) equals the one computed here.
+//! Since session 4, wave 2: zip containers may spell their entry names non-canonically (`respell`,
+//! sent to the model as RAW entries `Z…`, fix 2f541c3); stems below directories called `0`, `1` and
+//! dotted / sibling stems (`hello.c`, `util.c`/`util.cc`); the CLI stream runs with 1, 2 or 8 threads.
+//! Parts: `rawzip.rs` (archives written entry by entry: repeated / respelled / hostile / directory /
+//! symlink entries), `overlap.rs` (overlapping arguments, linked sub-directories: the domain
+//! restriction of the property as named findings).
 use corrlib::*;
 use crossbeam_channel::unbounded;
 use grcov::{producer, ItemFormat, ItemType, WorkItem};
@@ -19,6 +25,10 @@ use serde_json::{json, Value};
 use std::collections::{BTreeMap, BTreeSet};
 use std::io::Write;
 use std::path::{Path, PathBuf};
+
+mod overlap;
+mod rawzip;
+mod rawzipw;
 
 const MARKER: &[u8] = b"-//JACOCO//DTD";
 const F_GCNO_LAST: &str = "C17-gcno-same-stem-last-wins";
@@ -129,6 +139,9 @@ struct Layout {
     relative_args: bool,
     dir_entries: bool,
     zip_seed: u64,
+    /// zip containers spell their entry names non-canonically (`./a/b`, `a//b`, `a/./b`): the
+    /// canonical name is the artifact's relative name (fix 2f541c3)
+    respell: bool,
 }
 
 #[derive(Clone, Debug)]
@@ -152,7 +165,7 @@ fn case_json(c: &Case) -> Value {
             "containers": l.containers.iter().map(|t| match t { CType::Dir => "dir", CType::ZipStored => "zip-stored", CType::ZipDeflate => "zip-deflate" }).collect::<Vec<_>>(),
             "assign": l.assign,
             "order": l.order.iter().map(|r| match r { ArgRef::C(i) => format!("c{}", i), ArgRef::P(i) => format!("p{}", i) }).collect::<Vec<_>>(),
-            "relative_args": l.relative_args, "dir_entries": l.dir_entries, "zip_seed": l.zip_seed,
+            "relative_args": l.relative_args, "dir_entries": l.dir_entries, "zip_seed": l.zip_seed, "respell": l.respell,
         })).collect::<Vec<_>>(),
     })
 }
@@ -201,6 +214,7 @@ fn case_from_json(v: &Value) -> Case {
             relative_args: l["relative_args"].as_bool().unwrap_or(false),
             dir_entries: l["dir_entries"].as_bool().unwrap_or(false),
             zip_seed: l["zip_seed"].as_u64().unwrap_or(0),
+            respell: l["respell"].as_bool().unwrap_or(false),
         })
         .collect();
     Case {
@@ -347,6 +361,7 @@ fn build_layout(root: &Path, case: &Case, lay: &Layout) -> (Vec<String>, Vec<Str
                 // built in memory, written once (the file system under work/ is slow on small writes)
                 let mut w = zip::ZipWriter::new(std::io::Cursor::new(Vec::new()));
                 let mut dirs_done: BTreeSet<String> = BTreeSet::new();
+                let mut spelled_names: Vec<String> = vec![];
                 for &j in &order {
                     let rel = &case.arts[j].rel;
                     if lay.dir_entries {
@@ -358,13 +373,15 @@ fn build_layout(root: &Path, case: &Case, lay: &Layout) -> (Vec<String>, Vec<Str
                             }
                         }
                     }
-                    w.start_file(rel.as_str(), opts).unwrap();
+                    let spelled = if lay.respell { respell_name(rel, lay.zip_seed ^ (j as u64) << 8) } else { rel.clone() };
+                    w.start_file(spelled.as_str(), opts).unwrap();
                     w.write_all(&case.arts[j].content).unwrap();
+                    spelled_names.push(spelled);
                 }
                 let bytes = w.finish().unwrap().into_inner();
                 std::fs::write(&z, bytes).unwrap();
                 cpaths.push(z);
-                ctokens.push(order.iter().map(|&j| file_token(&case.arts[j].rel, &case.arts[j].content)).collect());
+                ctokens.push(order.iter().zip(spelled_names.iter()).map(|(&j, n)| file_token(n, &case.arts[j].content)).collect());
             }
         }
     }
@@ -375,7 +392,8 @@ fn build_layout(root: &Path, case: &Case, lay: &Layout) -> (Vec<String>, Vec<Str
         match r {
             ArgRef::C(ci) => {
                 paths.push(arg_string(&cpaths[*ci]));
-                let tag = if lay.containers[*ci] == CType::Dir { "d" } else { "z" };
+                // a respelled archive is sent with its RAW names (`Z`): the model makes the listing
+                let tag = if lay.containers[*ci] == CType::Dir { "d" } else if lay.respell { "Z" } else { "z" };
                 req.push(format!("{}{}:{}", tag, pos, ctokens[*ci].join(",")));
             }
             ArgRef::P(j) => {
@@ -390,6 +408,21 @@ fn build_layout(root: &Path, case: &Case, lay: &Layout) -> (Vec<String>, Vec<Str
         }
     }
     (paths, req)
+}
+
+/// a non-canonical spelling of a clean relative name; `Path::components` gives the same `Normal`s
+fn respell_name(rel: &str, seed: u64) -> String {
+    let mut r = Rng::new(seed);
+    let mut s = match r.below(4) {
+        0 => rel.to_string(),
+        1 => rel.replace('/', "//"),
+        2 => rel.replace('/', "/./"),
+        _ => rel.replacen('/', "/.//", 1),
+    };
+    if r.chance(1, 2) {
+        s = format!("./{}", s);
+    }
+    s
 }
 
 fn run_layout(root: &Path, case: &Case, lay: &Layout) -> LayoutRun {
@@ -634,7 +667,7 @@ fn oracles(case: &Case, runs: &[LayoutRun]) -> Option<OracleFail> {
 // usable inputs contain (each exactly once), hence is the same for all layouts
 
 fn cli_oracle(dir: &Path, case: &Case) -> Option<OracleFail> {
-    use corrlib::pipe::*;
+    use corrlib::pipe::{aggregate, decode_lcov_report, run_grcov, show_map, Input, RunCfg};
     let mut inputs: Vec<Input> = vec![];
     for a in &case.arts {
         let parsed = match a.intent {
@@ -661,7 +694,7 @@ fn cli_oracle(dir: &Path, case: &Case) -> Option<OracleFail> {
         let out = run_grcov(&RunCfg {
             dir: &std::env::current_dir().unwrap(),
             args: paths,
-            threads: 2,
+            threads: [1usize, 2, 8][(lay.zip_seed % 3) as usize],
             perturb: None,
             fault: None,
             limit: std::time::Duration::from_secs(60),
@@ -1117,8 +1150,12 @@ fn gen_xml_badutf8(rng: &mut Rng) -> Vec<u8> {
     b
 }
 
+/// `0/…`, `1/…`: directories named like a consumer's working directory (review item 1, fix 232bfd3);
+/// `hello.c`, `util.c` / `util.cc`: object files named `<source>.<ext>.o` (CMake) – a dot inside the
+/// stem's file name, and sibling stems that agree up to that dot
 const STEMS: &[&str] = &[
     "a", "b", "main", "sub/a", "sub/deep/c", "x.y", "d_1/e", "lib/foo-bar", "a_1", "sub/main", ".libs/a", "sub/.libs/hid", "lib/.h",
+    "0/a", "1/b", "0/x.c", "hello.c", "lib/util.c", "lib/util.cc", "sub/hello.c",
 ];
 const DIRS: &[&str] = &["", "", "sub/", "sub/deep/", "rep/", "lib/", ".ci/", "sub/.hidden/"];
 /// contents of `.ignore` / `.gitignore` files that would hide artifacts from a walker that honours them
@@ -1284,6 +1321,7 @@ fn gen_layout(rng: &mut Rng, arts: &[Artifact], style: Style, cfg: &GenCfg) -> L
         relative_args: rng.chance(1, 4),
         dir_entries: rng.chance(1, 3),
         zip_seed: rng.next(),
+        respell: rng.chance(1, 3),
     }
 }
 
@@ -1339,7 +1377,7 @@ fn art(rel: &str, content: &[u8], intent: Intent) -> Artifact {
     Artifact { rel: rel.to_string(), content: content.to_vec(), intent }
 }
 fn simple_layout(containers: Vec<CType>, assign: Vec<i64>, order: Vec<ArgRef>) -> Layout {
-    Layout { containers, assign, order, relative_args: false, dir_entries: false, zip_seed: 1 }
+    Layout { containers, assign, order, relative_args: false, dir_entries: false, zip_seed: 1, respell: false }
 }
 
 fn witnesses() -> Vec<(&'static str, Case)> {
@@ -1696,6 +1734,9 @@ pub fn run(rep: &mut Report) {
             }
         }
         for l in &case.layouts {
+            if l.respell && l.containers.iter().any(|c| *c != CType::Dir) {
+                rep.count("layout.respelled_zip_names");
+            }
             rep.count(&format!("layout.containers.{}", l.containers.len().min(5)));
             rep.count_n("layout.plain_args", l.order.iter().filter(|r| matches!(r, ArgRef::P(_))).count() as u64);
             for c in &l.containers {
@@ -1731,12 +1772,20 @@ pub fn run(rep: &mut Report) {
     }
     tie(rep, &pend, "c17");
     argclass_stream(rep);
+    rawzip::run(rep, &pools);
+    overlap::run(rep);
 }
 
 pub fn replay(rep: &mut Report, case: &Value) {
     if case["op"].as_str() == Some("argclass") {
         argclass_stream(rep);
         return;
+    }
+    if case["op"].as_str().map(|o| o.starts_with("rawzip")).unwrap_or(false) {
+        return rawzip::replay(rep, case);
+    }
+    if case["op"].as_str().map(|o| o.starts_with("overlap")).unwrap_or(false) {
+        return overlap::replay(rep, case);
     }
     let c = case_from_json(case);
     let mut pend = vec![];
